@@ -393,9 +393,13 @@ where
                                     )
                                     .num_microseconds()
                                     .unwrap_or_default()
+                                    .max(0) // a threadtime before the reference (e.g. from the prev year) would be negative
                                     as u64;
                                 self.threadtime_last_monotonic_timestamp = timestamp_us;
-                                (timestamp_us, self.recorded_start_time_us + timestamp_us)
+                                (
+                                    timestamp_us,
+                                    self.recorded_start_time_us.saturating_add(timestamp_us),
+                                )
                             } else {
                                 // here we'd need to use the max timestamp_us from the case a) as first timestamp
                                 let recorded_time_us =
